@@ -123,7 +123,7 @@ def resolve_one_rmw(ctx, db):
                 and any(norm(a.get('field') or '') == SLOT for a in e.get('args', [])):
             return True
         return False
-    check_who(ctx, rid, who(db, pred), SLOT_WRITERS, 'write of a future\'s awaiter slot')
+    check_who(ctx, rid, who(db, pred), SLOT_WRITERS, 'write of a future\'s awaiter slot', db=db)
 
 
 def _keys(db, name):
@@ -144,9 +144,14 @@ def walk(ctx, db):
             for tr in trs:
                 alias = {}          # var -> set of aliases (including itself)
                 dead = set()
+                inside = None       # id of the resume call whose own (inlined) body is being walked
                 for i, it in enumerate(tr):
                     if it.k == 'abort':
                         break
+                    if inside is not None:
+                        if it.k == 'leave' and it.ev.get('id') == inside[0] and it.get('depth') == inside[1]:
+                            inside = None
+                        continue
                     if it.k == 'decl' and it.get('init') and re.fullmatch(r'(local|param):\w+|this->\w+', it.get('init') or ''):
                         a = alias.setdefault(it['init'], {it['init']})
                         a.add(it['var']); alias[it['var']] = a
@@ -170,6 +175,8 @@ def walk(ctx, db):
                             if it.k == 'call' and p == dvar and is_resume(it):
                                 bad = bad or ('node %s resumed twice' % p, tr, i)
                     if is_resume(it):
+                        if it.get('expanded'):
+                            inside = (it.get('id'), it.get('depth'))
                         nres += 1
                         node = it.get('recv') if norm(it.get('callee')) == 'cocls::awaiter::resume' else ((it.get('args') or [{}])[0].get('path'))
                         if node:
@@ -280,7 +287,7 @@ def sync_waits(ctx, db):
                     continue
                 reg = None
                 for it in tr[si:]:
-                    if it.k == 'branch' and it.cond_ev == (tr[si].ev if tr[si].k == 'enter' else tr[si]).get('id'):
+                    if it.k == 'branch' and it.cond_ev == tr[si].get('id'):
                         reg = it.val; break
                 waits = all_indices(tr, lambda ev: ev.k == 'call' and atomic.is_atomic_call(ev) and atomic.opname(ev) == 'wait' and norm(ev.get('field')) == 'cocls::sync_awaiter::flag')
                 dt = index_of(tr, lambda ev: ev.k == 'dtor' and 'sync_awaiter' in (ev.get('type') or ''))
